@@ -109,6 +109,11 @@ def variants(tokens, akai):
                 toks = [(" " + t + "  ") if blanks else t for t in tokens]
                 p = sep.join(toks) + (sep if trail and tokens else "")
                 out.append((p, True))
+        # blanks (and a tab) around the WHOLE path, i.e. also behind the trailing separator
+        if tokens:
+            out.append(("  " + sep.join(tokens) + sep + " ", True))
+            out.append((" " + sep.join(tokens) + sep + " \t ", True))
+            out.append(("\t" + sep.join(tokens) + "  ", True))
     if akai and tokens:
         out.append(("/".join(t.lower() for t in tokens), False))
         if tokens[0].endswith(":"):
@@ -367,7 +372,7 @@ class Check(CheckBase):
     rule = ("trees whose names come from near-collision / hostile alphabets at every level (AKAI: 2 partitions x volume-name "
             "pairs x file-name pairs; Roland: volume/performance/sample name pairs; CDDA: title pairs and triples, titles of 19..60 characters in every order of widths, single-entry directories); for every "
             "node with a non-blank printed name: path of printed names x separator {/,\\,\\\\} x blanks {none, around every "
-            "token} x trailing separator {no,yes} must print what the canonical path prints, the right item (position-coded "
+            "token, around the whole path incl. behind a trailing separator} x trailing separator {no,yes} must print what the canonical path prints, the right item (position-coded "
             "marker per leaf) and sibling names pairwise distinct; AKAI lower-case / colon-less forms may resolve to the right "
             "item or be rejected; other paths: all token sequences of length 1 (quick) / <=2 (thorough) over {real names, names "
             "with one character changed/added/removed, '', ' ', '..', ':', non-ASCII, '.', 'A:', 'a'} with each separator must "
